@@ -394,6 +394,7 @@ type child struct {
 	curFam    string
 	// distinct cases loaded from the previous segment of the same decoder (already counted)
 	loadedDistinct int64
+	idleSample     []metrics.Sample
 }
 
 func childMain(cfg props.Cfg) int {
@@ -405,6 +406,7 @@ func childMain(cfg props.Cfg) int {
 	c := &child{cfg: cfg, out: bufio.NewWriterSize(os.Stdout, 1<<16), distinct: map[[8]byte]struct{}{}, reported: map[string]int{}}
 	c.stats.Families = map[string]int64{}
 	c.sample = []metrics.Sample{{Name: "/gc/heap/allocs:bytes"}}
+	c.idleSample = []metrics.Sample{{Name: "/memory/classes/heap/free:bytes"}, {Name: "/memory/classes/heap/released:bytes"}}
 	defer c.out.Flush()
 	switch parts[0] {
 	case "one":
@@ -527,8 +529,16 @@ func (c *child) exec(input []byte, nontrivial bool) {
 	if bigAlloc {
 		c.stats.BigAllocs++
 	}
+	// Memory this process has used and freed is zeroed by the runtime when a later huge (legal)
+	// allocation re-uses it: gigabytes of resident pages per child, and sixteen children at once
+	// invite the kernel's OOM killer. A child therefore hands over as soon as its idle heap grows.
+	idle := false
+	if c.stats.Evaluations%64 == 0 {
+		metrics.Read(c.idleSample)
+		idle = c.idleSample[0].Value.Uint64()+c.idleSample[1].Value.Uint64() > 96<<20
+	}
 	defer func() {
-		if bigAlloc && c.lc != nil {
+		if (bigAlloc || idle) && c.lc != nil {
 			// Re-using a multi-GiB span costs seconds of page zeroing per call; a fresh process
 			// gets zero pages from the kernel for free. Hand over to a new child after this case.
 			c.handoff()
